@@ -57,6 +57,8 @@ _TL = threading.local()          # .comm, .rank of the calling thread when it is
 _ORIG = {}                       # name -> original function of taurex.mpi
 _REBOUND = []                    # (module, attribute, original) rebinding done by install()
 _LOCK = threading.Lock()
+_DEEP = {}
+_DEEP_NAMES = ('allgather', 'allreduce', 'broadcast', 'barrier')
 
 
 class SimError(Exception):
@@ -158,11 +160,15 @@ def install():
             for n in NAMES:
                 _ORIG[n] = getattr(tmpi, n)
         for n in NAMES:
+            if _DEEP.get('on') and n in _DEEP_NAMES:
+                continue                    # deep mode: these keep taurex.mpi's own bodies
             setattr(tmpi, n, _REPL[n])
         for mname, mod in list(sys.modules.items()):
             if mod is None or mod is tmpi or not (mname == 'taurex' or mname.startswith('taurex.')):
                 continue
             for n in NAMES:
+                if _DEEP.get('on') and n in _DEEP_NAMES:
+                    continue
                 if getattr(mod, n, None) is _ORIG[n]:
                     setattr(mod, n, _REPL[n])
                     _REBOUND.append((mod, n, _ORIG[n]))
@@ -178,6 +184,83 @@ def uninstall():
             setattr(mod, n, f)
         del _REBOUND[:]
         _ORIG.clear()
+
+
+# ----------------------------------------------------------------------------------------------
+# deep mode: the real bodies of taurex.mpi.allgather / allreduce / broadcast / barrier run, over a stand-in mpi4py whose
+# COMM_WORLD is the simulated communicator (get_rank / nprocs stay replaced: they are lru_cache'd per process in
+# taurex.mpi, and all simulated ranks share one process)
+# ----------------------------------------------------------------------------------------------
+class _FakeWorld(object):
+    def Get_rank(self):
+        return _TL.rank if current() is not None else 0
+
+    def Get_size(self):
+        c = current()
+        return c.R if c is not None else 1
+
+    def Split_type(self, *a, **k):
+        return self
+
+    def allgather(self, data):
+        return current().collective('allgather', data)
+
+    def allreduce(self, value, op=None):
+        vals = current().collective('allreduce', value, meta='sum')
+        out = vals[0]
+        for v in vals[1:]:
+            out = out + v
+        return out
+
+    def bcast(self, obj, root=0):
+        vals = current().collective('broadcast', ('obj', obj if _TL.rank == root else None), meta=('root', root))
+        return vals[root][1]
+
+    def Bcast(self, buf, root=0):
+        vals = current().collective('broadcast', ('buf', np.array(buf) if _TL.rank == root else None),
+                                    meta=('root', root))
+        buf[...] = vals[root][1]
+
+    def Barrier(self):
+        current().collective('barrier', None)
+
+
+def install_deep():
+    """install(), then hand allgather / allreduce / broadcast / barrier back to taurex.mpi's own functions and make
+    `from mpi4py import MPI` resolve to the stand-in."""
+    import types
+    import taurex.mpi as tmpi
+    install()
+    with _LOCK:
+        _DEEP['on'] = True
+        for n in _DEEP_NAMES:
+            setattr(tmpi, n, _ORIG[n])
+            for mod, n2, f in _REBOUND:
+                if n2 == n:
+                    setattr(mod, n2, f)
+        if 'mods' not in _DEEP:
+            _DEEP['mods'] = (sys.modules.get('mpi4py'), sys.modules.get('mpi4py.MPI'))
+        pkg = types.ModuleType('mpi4py')
+        sub = types.ModuleType('mpi4py.MPI')
+        sub.COMM_WORLD = _FakeWorld()
+        sub.SUM = 'sum'
+        sub.COMM_TYPE_SHARED = 0
+        pkg.MPI = sub
+        pkg.__verif_double__ = True
+        sys.modules['mpi4py'] = pkg
+        sys.modules['mpi4py.MPI'] = sub
+
+
+def uninstall_deep():
+    with _LOCK:
+        _DEEP['on'] = False
+        if 'mods' in _DEEP:
+            for name, m in zip(('mpi4py', 'mpi4py.MPI'), _DEEP.pop('mods')):
+                if m is None:
+                    sys.modules.pop(name, None)
+                else:
+                    sys.modules[name] = m
+    uninstall()
 
 
 def installed():
